@@ -488,10 +488,13 @@ class KwDict(object):
     def lookup(self, key):
         """('forced', value, stmt): a literal entry above everything the caller passed; ('default', value, stmt): a literal
         entry below the caller's keywords and none above; ('caller', None, None): only the caller can supply it;
-        ('unknown', ...): an unmodelled source may supply it."""
+        ('absent', ..): nobody does; ('unknown', ...): an unmodelled source may supply it."""
+        return self._lookup(self.layers, key, 0)
+
+    def _lookup(self, layers, key, depth):
         top = None
-        for i in range(len(self.layers) - 1, -1, -1):
-            l = self.layers[i]
+        for i in range(len(layers) - 1, -1, -1):
+            l = layers[i]
             if l[0] == 'key' and l[1] == key:
                 top = i
                 break
@@ -500,7 +503,7 @@ class KwDict(object):
             if l[0] == 'caller':
                 # the caller may or may not pass it: look below for the default
                 for j in range(i - 1, -1, -1):
-                    m = self.layers[j]
+                    m = layers[j]
                     if m[0] == 'key' and m[1] == key:
                         return ('default', m[2], m[3])
                     if m[0] in ('src', 'caller'):
@@ -508,17 +511,21 @@ class KwDict(object):
                 return ('caller', None, None)
         if top is None:
             return ('absent', None, None)
-        v = self.layers[top][2]
-        # d[k] = kw.get(k, default) written over a copy of kw: the caller's value if given, else the default
+        v = layers[top][2]
+        # d[k] = other.get(k, default): whatever ``other`` holds for k, else the default
         if isinstance(v, ast.Call) and isinstance(v.func, ast.Attribute) and v.func.attr == 'get' and len(v.args) == 2 and not v.keywords and \
-                isinstance(v.args[0], ast.Constant) and v.args[0].value == key and norm(v.func.value) in self.env:
-            src = self.env[norm(v.func.value)]
-            if src == [('caller',)]:
-                below = [l for l in self.layers[:top] if l[0] != 'caller' and not (l[0] == 'key' and l[1] != key)]
-                if not below:
-                    return ('default', v.args[1], self.layers[top][3])
+                norm(v.func.value) in self.env and depth < 3:
+            if not (isinstance(v.args[0], ast.Constant) and v.args[0].value == key):
+                return ('unknown', None, None)
+            how, v2, st2 = self._lookup(self.env[norm(v.func.value)], key, depth + 1)
+            if how == 'caller':
+                return ('default', v.args[1], layers[top][3])
+            if how == 'absent':
+                return ('forced', v.args[1], layers[top][3])
+            if how in ('default', 'forced'):
+                return (how, v2, st2)
             return ('unknown', None, None)
-        return ('forced', v, self.layers[top][3])
+        return ('forced', v, layers[top][3])
 
 
 def _enclosing_iteration(mod, node, fnode):
